@@ -16,6 +16,11 @@ RULE = ("the real `any` main (compiled from /repo/src/bin/any.rs) is run as a pr
         "unit text iff value != 1; an error appears as a diagnostic block starting `error: <message>` and later results still print; "
         "exit status 0. non-trivial = distinct (query, mode) with a unit, several results or an error")
 
+ERROR_CANDIDATES = ["(1 / 0)", "(0 ^ -1)", "(OR)", "(NOT)", "(NOT earth)", "(earth NOT)", "(earth OR)", "(OR earth)", "(earth AND OR moon)", "(1 m + 1 s)", "(1 m - 1 kg)",
+                    "(1 m to s)", "(1 °C^2 to K^2)", "(1 °C*m to K*m)", "(1 K/s to °C/s)", "(floor())", "(round(1,2,3))", "(ceil(1,2))", "(round(1, 1 m))", "(round(1, 1.5))",
+                    "(zzqqxx)", "(qqq jjj)", "(1 xyzunit)", "(1 m°)", "(nosuchfn(1))", "(2 ^ 1.5)", "(2 ^ (1 m))", "(2 ^ 3 m)", "(1 km*m)", "(1 g*kg)", "(1 m^2.5)", "(1 m^x)",
+                    "(1 2 m)", "(5 m 2)", "(1 m^99999999999)", "(1e)", "(1 +)", "(+)", "(})", "({a b})", "(1.2.3)", "(sin(1 m))", "(cos())", "(1 m / 0 s)", "((1 - 1) ^ -2)",
+                    "(1 to)", "(to m)", "(1 % %)", "(,)", "(round(,))", "(1 m to 2 m)", "(1 m to m^0)"]
 PLURAL_UNITS = ["decade", "century", "millenium", "gallon", "btu", "cable", "acre", "hand", "pint", "cup"]
 
 def gen_query(rng, V, facts, extra=None):
@@ -56,7 +61,7 @@ def gen_query(rng, V, facts, extra=None):
         # several results: juxtaposed parenthesised expressions, some failing
         parts = []
         for _ in range(rng.randint(2, 4)):
-            parts.append(rng.choice(["(%s)" % value(), "(%s)" % quantity(), "(1 / 0)", "(1 m + 1 s)", "(round(2.5))", "(zzqqxx)"]))
+            parts.append(rng.choice(["(%s)" % value(), "(%s)" % quantity(), "(1 / 0)", "(1 m + 1 s)", "(round(2.5))", "(zzqqxx)"] + (getattr(V, "error_parts", None) or [])))
         return " ".join(parts)
     if rng.random() < 0.5 and extra:
         # the hostile families of C11 (token soups, structured queries with mutations, mutated corpus queries): every kind of
@@ -102,6 +107,21 @@ def shard(p):
         V.pluralisable = sorted({e["word"] for e, r0 in zip(bare, reps0) if len(r0.get("items") or []) == 1 and "ok" in r0["items"][0]
                                  and r0["items"][0]["ok"].get("disp") != r0["items"][0]["ok"].get("disp_pl")})
         acc.seen("pluralisable_unit_words", tuple(V.pluralisable))
+        # one failing sub-expression per KIND of error the library can report (probed here, grouped by message shape): each has to
+        # come out of the binary as a diagnostic without swallowing the results after it (seed C19-d)
+        import re as _re
+        ereps = d.call_many([{"op": "query", "q": c} for c in ERROR_CANDIDATES], timeout=300)
+        kinds = {}
+        for c, er in zip(ERROR_CANDIDATES, ereps):
+            its = er.get("items") or []
+            if len(its) == 1 and "err" in its[0]:
+                k = _re.sub(r"`[^`]*`|[0-9]+|'[^']*'", "_", its[0]["err"]["msg"])[:40]
+                kinds.setdefault(k, [])
+                if len(kinds[k]) < 2:
+                    kinds[k].append(c)
+        V.error_parts = [c for cs in kinds.values() for c in cs]
+        for k in kinds:
+            acc.seen("error_kinds_in_multi_result_queries", k)
         for _ in range(p["n"]):
             q = gen_query(rng, V, p["facts"], {"vocab": p["vocab"], "corpus": p["corpus"]} if p.get("vocab") else None)
             exact_mode = rng.random() < 0.5
